@@ -26,7 +26,8 @@ META = {
 }
 THEOREMS = ['Scalibr.Unpack.C06_unpack_contained_partial', 'Scalibr.Unpack.C06_resolution_stays_inside', 'Scalibr.Unpack.Contained_of_Safe',
             'Scalibr.Unpack.unpackAll_safe', 'Scalibr.Unpack.resolve_inside', 'Scalibr.Unpack.outsideUnchangedB_sound',
-            'Scalibr.Unpack.C06_unpack_contained_fails', 'Scalibr.Unpack.C06_unpack_not_contained', 'Scalibr.Unpack.C06_unpack_writes_outside']
+            'Scalibr.Unpack.linksInsideB_of_Contained', 'Scalibr.Unpack.C06_fuel_monotone', 'Scalibr.Unpack.C06_fuel_adequate_nolink',
+            'Scalibr.Unpack.C06_hypothesis_only_sufficient', 'Scalibr.Unpack.C06_unpack_contained_fails', 'Scalibr.Unpack.C06_unpack_not_contained', 'Scalibr.Unpack.C06_unpack_writes_outside']
 
 KEY = 'C06/lexical-target-outside-root'
 DEPTH = 30
